@@ -30,6 +30,10 @@ class SamplerCore:
         self.config = config
         self.state = state
 
+        # Seed the random stream with the caller-supplied seed
+        if config.random_state is not None:
+            np.random.seed(config.random_state)
+
         # Initialize components (moved from Sampler._initialize_steps)
         from .steps.reweight import Reweighter
         from .steps.train import Trainer
